@@ -49,4 +49,12 @@ Print Assumptions C09_bad_entry_blocks.
 Theorem C09_admittedb_spec : forall c a, Spec.C09.admittedb c a = true <-> Spec.C09.admitted c a.
 Proof. exact C09_proofs.admittedb_spec. Qed.
 Print Assumptions C09_admittedb_spec.
+
+(* tie to the code: the definition regenerated from AccessControl._is_allowed computes Model.Ip.is_allowed *)
+From NV Require Gen.PyGen Equiv.Equiv.
+Theorem C09_code_tie : forall ipaddr dn al dflt ip,
+  PyGen.gen_is_allowed ipaddr dn al dflt ip = is_allowed {| allow := al; deny := dn; default_allow := dflt |} (ipaddr ip).
+Proof. exact Equiv.is_allowed_tie. Qed.
+Print Assumptions C09_code_tie.
+
 Close Scope N_scope.
